@@ -31,6 +31,10 @@
      ssa   ((w...) (instr...) (opnd...))
      instr (opcode aux out_signed out_bits (opnd...))   aux: index = element width,
                                                         builtin = 1 for circuits.Hamming
+           circ: (opcode 0 0 out_bits (opnd...) (in_bits...) (nwires ninputs noutputs) ((op in0 in1 out)...))
+                 = instr.Circ as it stands in memory (the listing prints only {G,W}); out_bits =
+                 the total width of instr.Ret; the line "circ a.. r0 .. rm" is followed by one
+                 `slice` instruction per r_j (see Lang/Ssa.v, Ocirc)
      opnd  (0 i signed bits) | (1 cw cv signed bits)                         *)
 From Coq Require Import ZArith NArith List Bool.
 From Mpc Require Import Gen.Consts Base.Sx Lang.Mini Lang.Ssa Lang.Lower Lang.RunC03cg.
@@ -172,11 +176,29 @@ Definition dec_opnd (s : sx) : opnd :=
   else OConst (getnat (nthx 1 s)) (getN (nthx 2 s))
               (mkSty (getB (nthx 3 s)) (getnat (nthx 4 s))).
 
+(* instr.Circ: circuit.Operation enum values from the regenerated Gen/Consts.v *)
+Definition cop_of_Z (z : Z) : Mpc.Circuit.Circuit.op :=
+  if Z.eqb z circuit_XOR then Mpc.Circuit.Circuit.XOR
+  else if Z.eqb z circuit_XNOR then Mpc.Circuit.Circuit.XNOR
+  else if Z.eqb z circuit_AND then Mpc.Circuit.Circuit.AND
+  else if Z.eqb z circuit_OR then Mpc.Circuit.Circuit.OR else Mpc.Circuit.Circuit.INV.
+
+Definition dec_cgate (s : sx) : Mpc.Circuit.Circuit.gate :=
+  Mpc.Circuit.Circuit.mkGate (getnat (nthx 1 s)) (getnat (nthx 2 s)) (getnat (nthx 3 s))
+                             (cop_of_Z (getZ (nthx 0 s))).
+
+Definition dec_circuit (dims gs : sx) : Mpc.Circuit.Circuit.circuit :=
+  Mpc.Circuit.Circuit.mkCircuit (getnat (nthx 0 dims)) (getnat (nthx 1 dims)) (getnat (nthx 2 dims))
+                                (map dec_cgate (getL gs)).
+
 (* aux: index = element width; builtin = which builtin (1 = circuits.Hamming, the
    only one ast/builtin.go emits; anything else has no model) *)
 Definition dec_instr (s : sx) : instr :=
-  let op := dec_opcode (getZ (nthx 0 s)) in
+  let opz := getZ (nthx 0 s) in
   let aux := getnat (nthx 1 s) in
+  let op := if Z.eqb opz compiler_ssa_Circ
+            then Ocirc (getLnat (nthx 5 s)) (dec_circuit (nthx 6 s) (nthx 7 s))
+            else dec_opcode opz in
   let op := match op with Ohamming => if Nat.eqb aux 1 then Ohamming else Ounsupported | _ => op end in
   mkInstr op (map dec_opnd (getL (nthx 4 s)))
           (mkSty (getB (nthx 2 s)) (getnat (nthx 3 s))) aux.
